@@ -33,10 +33,10 @@ using gil::point_t;
 
 static void spill(std::string const& path, bytes const& b) { std::ofstream f(path, std::ios::binary | std::ios::trunc); f.write((char const*)b.data(), (std::streamsize)b.size()); }
 
-template <typename Img> std::string show(Img const& img) {
-    return std::to_string(img.width()) + " " + std::to_string(img.height()) + " " + hex(dump<1>(gil::const_view(img))); }
 template <typename View> std::string show_view(View const& v) {
-    return std::to_string(v.width()) + " " + std::to_string(v.height()) + " " + hex(dump<1>(v)); }
+    bool huge = (long long)v.width() * v.height() > (1 << 16);      // a mangled header field: dimensions only
+    return std::to_string(v.width()) + " " + std::to_string(v.height()) + " " + (huge ? std::string("-") : hex(dump<1>(v))); }
+template <typename Img> std::string show(Img const& img) { return show_view(gil::const_view(img)); }
 
 template <typename View> void paint(View const& v, unsigned char val) { bytes b((size_t)v.width() * v.height() * gil::num_channels<View>::value, val); fill<1>(v, b); }
 // everything outside [x0,x0+w) x [y0,y0+h) still holds `val`
